@@ -83,8 +83,8 @@ static size_t FirstDiff(const std::string & a, const std::string & b) {size_t i 
 // ------------------------------------------------------------------------------------------------ the public API, call by call
 class TagObj : public RefCountable {};
 static int g_ptrTargets[4];
-static uint32 g_variant = 0;        // alternates between the typed call and the equivalent generic AddData / PrependData / ReplaceData call
-static bool g_sawNonFlat = false;   // a tag or pointer was involved somewhere in the current case
+static thread_local uint32 g_variant = 0;        // alternates between the typed call and the equivalent generic AddData / PrependData / ReplaceData call
+static thread_local bool g_sawNonFlat = false;   // a tag or pointer was involved somewhere in the current case
 
 enum {MODE_ADD = 0, MODE_PREPEND, MODE_REPLACE};
 static MessageRef BuildScript(const mj::Value & sc);
@@ -276,6 +276,44 @@ static void CheckState(const Message & m, const Message * twin, const std::strin
          ir++;
       }
    }
+   // Unflatten "replaces the previous contents": parsing into a Message that already holds something must give exactly what parsing into a fresh one gives
+   {
+      static thread_local Message reused;          // holds the result of the previous parse (of another state / vector) of this thread
+      static thread_local uint32 rot = 0;
+      Message target; const char * how = "";
+      const uint32 firstTC = 0;
+      String firstName; {MessageFieldNameIterator it = m.GetFieldNameIterator(); if (it.HasData()) firstName = it.GetFieldName();}
+      switch((rot++) % 6)
+      {
+         case 0: how = "a Message that holds the result of an earlier parse"; break;                                            // -> reused, below
+         case 1: how = "a copy of the original (the same fields)"; target = m; break;
+         case 2: how = "a Message that holds other fields"; (void) target.AddInt32("zz1", 1); (void) target.AddString("zz2", "x"); (void) target.AddString("zz2", "y"); target.what = 77; break;
+         case 3: how = "a Message that holds the same and more fields"; target = m; (void) target.AddInt64("zz3", 3); (void) target.AddMessage("zz4", GetMessageFromPool(5)); (void) target.AddFloat("zz5", 1.5f); (void) target.AddBool("zz6", true); (void) target.AddInt8("zz7", 7); break;
+         case 4: how = "a Message that holds a field of the same name with another type"; {uint32 tc = 0; (void) m.GetInfo(firstName, &tc); if (tc == B_STRING_TYPE) (void) target.AddInt32(firstName, 5); else {(void) target.AddString(firstName, "other"); (void) target.AddString(firstName, "type");}} break;
+         default: how = "the parsed Message itself (parsed again from its own bytes)"; (void) target.UnflattenFromBytes((const uint8 *) b.data(), (uint32) b.size()); break;
+      }
+      (void) firstTC;
+      Message & t = (((rot-1) % 6) == 0) ? reused : target;
+      status_t st3;
+      if (rot & 8) {ByteBufferRef bb = GetByteBufferFromPool((uint32) b.size(), (const uint8 *) b.data()); st3 = bb() ? t.UnflattenFromByteBuffer(*bb()) : status_t(B_OUT_OF_MEMORY);}    // the other entry point
+      else st3 = t.UnflattenFromBytes((const uint8 *) b.data(), (uint32) b.size());
+      std::string b3;
+      if (st3.IsError()) viol.push_back(std::string("parsing the Message's own bytes into ") + how + " fails: " + st3());
+      else if (FlatChecked(t, b3, viol, "re-used parse target"))
+      {
+         if ((b3 != b)||(t.FlattenedSize() != r.FlattenedSize())||(t.GetNumNames() != r.GetNumNames())||(t.what != r.what)||(t.CalculateChecksum() != r.CalculateChecksum()))
+         {
+            snprintf(tmp, sizeof(tmp), ": %u fields / %u bytes / checksum %u instead of %u fields / %zu bytes / checksum %u", t.GetNumNames(), t.FlattenedSize(), t.CalculateChecksum(), r.GetNumNames(), b.size(), r.CalculateChecksum());
+            viol.push_back(std::string("parsing into ") + how + " does not replace its contents: the result differs from the parse into a fresh Message" + tmp);
+         }
+         else
+         {
+            Message r2; (void) r2.UnflattenFromBytes((const uint8 *) b.data(), (uint32) b.size());
+            if (((t == r) != (r2 == r))||((r == t) != (r == r2))) viol.push_back(std::string("the Message parsed into ") + how + " does not compare like a freshly parsed one");
+         }
+      }
+      if (st3.IsError()) reused.Clear();
+   }
    if (twin)
    {
       MessageRef sm, st2;
@@ -372,6 +410,73 @@ static int Vec01(int argc, char ** argv)
       else ok++;
    }
    ReportLine(mj::Value::Obj().set("summary", mj::Value::Bool(true)).set("vectors", mj::Value::Int((int64_t) n)).set("agreed", mj::Value::Int((int64_t) ok)).set("bytes_compared", mj::Value::Int((int64_t) bytes)));
+   return 0;
+}
+
+// ------------------------------------------------------------------------------------------------ mt (C01: the codec is re-entrant across independent objects)
+//   wire mt <vectors.ndjson> <threads> <milliseconds> <report.ndjson>
+//   N free-running threads; thread i owns vectors i, i+N, ...: it builds them through their scripts, then for the given time sizes, serialises (bytes = the
+//   specification's), parses into a fresh and into its own re-used target, re-serialises and compares checksums - nothing is shared between the threads but the library.
+#include <pthread.h>
+struct MTShared {std::vector<mj::Value> * vec; int nThreads; uint64_t deadline; pthread_mutex_t mu; std::vector<mj::Value> bad; uint64_t trips; volatile bool stop;};
+struct MTArg {MTShared * sh; int idx;};
+static void * MTWorker(void * a)
+{
+   MTArg * arg = (MTArg *) a; MTShared & sh = *arg->sh;
+   std::vector<MessageRef> msgs; std::vector<std::string> exp; std::vector<size_t> ids;
+   for (size_t i=(size_t) arg->idx; i<sh.vec->size(); i+=(size_t) sh.nThreads)
+   {
+      const mj::Value & v = (*sh.vec)[i];
+      MessageRef m = BuildScript(v["s"]);
+      if (m() == NULL) continue;
+      msgs.push_back(m); exp.push_back(BytesOf(v["b"])); ids.push_back(i);
+   }
+   Message reused; uint64_t trips = 0;
+   while ((sh.stop == false)&&(GetRunTime64() < sh.deadline)&&(msgs.size() > 0))
+   {
+      for (size_t i=0; (i<msgs.size())&&(sh.stop == false); i++)
+      {
+         const Message & m = *msgs[i](); const char * why = NULL;
+         const uint32 fs = m.FlattenedSize();
+         std::string b(fs, '\0'); if (fs) m.FlattenToBytes((uint8 *) &b[0], fs);
+         Message r; std::string b2, b3;
+         if (b != exp[i]) why = "the bytes written differ from the specification's";
+         else if (r.UnflattenFromBytes((const uint8 *) b.data(), fs).IsError()) why = "the Message's own bytes cannot be parsed";
+         else if ((b2 = FlatPlain(r)) != b) why = "the parsed Message re-serialises to other bytes";
+         else if (r.CalculateChecksum() != m.CalculateChecksum()) why = "the checksum changes over the trip";
+         else if (reused.UnflattenFromBytes((const uint8 *) b.data(), fs).IsError()) why = "the bytes cannot be parsed into the thread's re-used Message";
+         else if ((b3 = FlatPlain(reused)) != b) why = "the thread's re-used Message re-serialises to other bytes";
+         trips++;
+         if (why)
+         {
+            pthread_mutex_lock(&sh.mu);
+            if (sh.bad.size() < 10) sh.bad.push_back(mj::Value::Obj().set("thread", mj::Value::Int(arg->idx)).set("vector", (*sh.vec)[ids[i]]["id"]).set("violations", StrArr(Strs(1, std::string("while ") + std::to_string(sh.nThreads) + " threads round-trip their own Messages: " + why)))
+                                                     .set("m", (*sh.vec)[ids[i]]["m"]).set("code", mj::Value::Str(Short(Hex(b)))).set("reparsed", mj::Value::Str(Short(Hex(b2.empty() ? b3 : b2)))));
+            else sh.stop = true;
+            pthread_mutex_unlock(&sh.mu);
+         }
+      }
+   }
+   pthread_mutex_lock(&sh.mu); sh.trips += trips; pthread_mutex_unlock(&sh.mu);
+   return NULL;
+}
+static int MT(int argc, char ** argv)
+{
+   if (argc < 6) return 2;
+   FILE * in = fopen(argv[2], "r"); if (in == NULL) return 2;
+   const int nT = atoi(argv[3]); const uint64_t ms = (uint64_t) atoll(argv[4]);
+   OpenReport(argv[5]);
+   std::vector<mj::Value> vec; std::string line;
+   while (mj::ReadLine(in, line)) {mj::Value v; if (mj::Parse(line, v) == false) return 2; vec.push_back(v);}
+   snprintf(g_ctx, sizeof(g_ctx), "mt: %d threads round-tripping their own Messages", nT);
+   alarm((unsigned)(ms/1000 + 120));
+   MTShared sh; sh.vec = &vec; sh.nThreads = nT; sh.deadline = GetRunTime64() + MillisToMicros(ms); sh.trips = 0; sh.stop = false; pthread_mutex_init(&sh.mu, NULL);
+   std::vector<pthread_t> th((size_t) nT); std::vector<MTArg> args((size_t) nT);
+   for (int i=0; i<nT; i++) {args[(size_t)i].sh = &sh; args[(size_t)i].idx = i; if (pthread_create(&th[(size_t)i], NULL, MTWorker, &args[(size_t)i]) != 0) return 2;}
+   for (int i=0; i<nT; i++) (void) pthread_join(th[(size_t)i], NULL);
+   alarm(0);
+   for (size_t i=0; i<sh.bad.size(); i++) ReportLine(sh.bad[i]);
+   ReportLine(mj::Value::Obj().set("summary", mj::Value::Bool(true)).set("threads", mj::Value::Int(nT)).set("vectors", mj::Value::Int((int64_t) vec.size())).set("round_trips", mj::Value::Int((int64_t) sh.trips)).set("mismatches", mj::Value::Int((int64_t) sh.bad.size())));
    return 0;
 }
 
@@ -1262,6 +1367,7 @@ int main(int argc, char ** argv)
    if (mode == "gen")    return Gen(argc, argv);
    if (mode == "vec01")  return Vec01(argc, argv);
    if (mode == "heap")   return Heap(argc, argv);
+   if (mode == "mt")     return MT(argc, argv);
    if (mode == "x08vec") return X08Vec(argc, argv);
    if (mode == "x08gen") return X08Gen(argc, argv);
    if (mode == "pyecho") return PyEcho(argc, argv);
